@@ -77,6 +77,22 @@ class Model:
                 q = t.resolve_expr(m, e.func)
                 if q in t.classes:
                     add(t.classes[q])
+                elif isinstance(e.func, ast.Name) and q not in t.classes:
+                    # cls = A if flag else B ; self.x = cls(...)
+                    for st in ast.walk(init.node):
+                        if isinstance(st, ast.Assign) and any(isinstance(tg, ast.Name) and tg.id == e.func.id for tg in st.targets):
+                            v_ = st.value
+                            alts_ = [v_.body, v_.orelse] if isinstance(v_, ast.IfExp) else ([v_] if isinstance(v_, (ast.Name, ast.Attribute)) else [])
+                            for alt in alts_:
+                                qa = t.resolve_expr(m, alt)
+                                if qa in t.classes:
+                                    add(t.classes[qa])
+                elif isinstance(e.func, ast.IfExp):
+                    # (GridObserver if flag else VectorObserver)(...): both classes are candidates
+                    for alt in (e.func.body, e.func.orelse):
+                        qa = t.resolve_expr(m, alt)
+                        if qa in t.classes:
+                            add(t.classes[qa])
             elif isinstance(e, ast.Name):
                 for a in init.node.args.args + init.node.args.kwonlyargs:
                     if a.arg == e.id:
